@@ -227,9 +227,12 @@ def oracle_relabel(case):
     same_plan = (len(r0.f) == len(r1.f) and np.array_equal(np.asarray(r0.L), np.asarray(r1.L))
                  and all(np.array_equal(np.asarray(p), np.asarray(q)) for p, q in zip(r0.D, r1.D)))
     if not same_plan:
+        # Not a violation: the property speaks about densities/ENBW of the same analysis.  The vectorised scheduler
+        # builds its lookup grid with log10/10**, which is not exactly scale-covariant even for a power of two, so a
+        # frequency sitting on a grid point can look up the neighbouring L (seen: N=16, f=0.125, L=10 vs 11).  Such
+        # cases are only counted; the iterative schedulers must still give identical plans (pure scaling by 2^k).
         labels.append("relabel:plan-changed")
-        if not case["single"]:
-            # a is a power of two: every quantity of the plan scales exactly, so the plan cannot change
+        if not case["single"] and cfg["scheduler"] != "vectorized_ltf":
             viol.append(V("plan_changes_under_power_of_two_relabelling", a=a, sched=cfg["scheduler"]))
         return Res(viol, False, labels)
     rt = 1e-12 if not case["single"] else 1e-9
